@@ -3,7 +3,7 @@ package s0160
 
 type T struct {
 	F0 int32
-	F1 int64
-	F2 *uint32
-	F3 *uint64
+	F1 []int64
+	F2 uint32
+	F3 uint64
 }
